@@ -21,8 +21,8 @@ CHECKS = {
  "C05": ("exploration", "exhaustive altitude-code enumeration (8192 AC13 x DF4/DF20, 4096 AC12 x TC9-18) x proptest contexts against an independent Q-bit/Gillham decoder; Gillham class pinned by a known-findings table",
          "complete over the code dimension, sampled over context (payload, address, path, options)",
          "Gillham codes are a recorded known finding evaluated on canonical frames", "DESIGN.md §6 C05"),
- "C06": ("exploration", "exhaustive identity-code enumeration (8192 x DF5/DF21) x proptest contexts against an octal-digit reference + proptest histories of foreign frames",
-         "complete over the code dimension; history invariant 'no other format changes the squawk'",
+ "C06": ("exploration", "exhaustive identity-code enumeration (8192 x DF5/DF21) x proptest contexts against an octal-digit reference + proptest histories of foreign frames + proptest reply sequences (codes from a small pool, latest reply wins after every step)",
+         "complete over the code dimension; history invariants 'no other format changes the squawk' and 'the latest DF5/DF21 reply wins'",
          "identity code layout per Annex 10", "DESIGN.md §6 C06"),
  "C07": ("exploration", "exhaustive position x character-code grid and TC x CA grid + proptest strings / BDS 2,0 gate states against a character-table reference, incl. the printed W and CALLSIGN cells",
          "grid complete; contexts generated; rendered cells read from captured Planes::print output",
